@@ -336,9 +336,31 @@ def arrow_null_over_empty_content(case, why):
     """F42: to_arrow replaces the index of every missing value by 0 and builds IndexedArray(index, content); when the
     content is EMPTY that index is out of range, and the projection reads outside the content's buffers (garbage list
     offsets / buffer sizes under the null mask; from_arrow may then fail with 'buffer size must be a multiple...')."""
-    if case.get("act") != "buffers" or "arrow" not in why:
+    if not ((case.get("act") == "buffers" and "arrow" in why) or case.get("act") == "rt_arrow"):
         return False
     import replay
+
+    def _length(L):
+        c = L.get("c")
+        if c == "Numpy":
+            return L.get("shape", [len(L.get("d", []))])[0]
+        if c in ("ListOffset",):
+            return len(L["o"]) - 1
+        if c == "List":
+            return len(L["s"])
+        if c in ("Indexed", "IndexedOption"):
+            return len(L["i"])
+        if c == "ByteMasked":
+            return len(L["m"])
+        if c in ("BitMasked", "Record"):
+            return L.get("n", 0)
+        if c == "Regular":
+            return L.get("zl", 0) if L.get("size", 0) == 0 else _length(L["x"]) // L["size"]
+        if c == "Unmasked":
+            return _length(L["x"])
+        if c == "Union":
+            return len(L["t"])
+        return 0 if c == "Empty" else 1
 
     def bad(L):
         if not isinstance(L, dict):
@@ -348,7 +370,11 @@ def arrow_null_over_empty_content(case, why):
                 if len(replay.abstract_to_list(L["x"])) == 0:
                     return True
             except Exception:
-                pass
+                try:
+                    if _length(L["x"]) == 0:          # (layouts dumped by the worker / the stand-in carry more attributes)
+                        return True
+                except Exception:
+                    pass
         if "x" in L and bad(L["x"]):
             return True
         return any(bad(x) for x in L.get("xs", []))
@@ -457,7 +483,7 @@ def negative_axis_below_nested_record(case, why):
     num([[{x:[1]},{x:[2,3]}],[{x:[4,5,6]}]], axis=-1) returns an INVALID layout, local_index gives the field's
     row numbers, flatten raises 'axis=0 not allowed', pad_none pads nothing, combinations mixes different records."""
     ax = case.get("args", {}).get("axis") if isinstance(case.get("args"), dict) else None
-    if case.get("act") not in ("num", "localindex", "flatten", "pad", "comb") or ax is None or ax >= 0:
+    if case.get("act") not in ("num", "localindex", "flatten", "pad", "comb", "isnone", "fillnone", "firsts") or ax is None or ax >= 0:
         return False
     return _record_with_list_field_under_list(case.get("from"))
 
